@@ -27,6 +27,11 @@ type aclCase struct {
 	Backend string    `json:"backend"`
 	A       []absLine `json:"a"`
 	B       []absLine `json:"b"`
+	// Fill > 0: both ACLs are padded with that many filler lines (behind position FillA / FillB), the
+	// target with one filler dropped and one new one (large ACLs; kept out of the replay file)
+	Fill  int `json:"fill,omitempty"`
+	FillA int `json:"fill_a,omitempty"`
+	FillB int `json:"fill_b,omitempty"`
 }
 
 func asaConfig(name string, ls []absLine) string {
@@ -225,9 +230,14 @@ func run(ctx *Ctx) *Result {
 		backends = []string{"ios"}
 	}
 
-	runCase := func(c aclCase) {
+	runCase := func(c0 aclCase) {
+		c := c0
 		ios := c.Backend == "ios"
 		t := newKeyTable()
+		if c.Fill > 0 {
+			c.A, c.B = padded(c.A, c.Fill, c.FillA, false), padded(c.B, c.Fill, c.FillB, true)
+			res.Count(fmt.Sprintf("%s:large-acl:%d-lines", c.Backend, c.Fill/1000*1000))
+		}
 		if !ios {
 			// remarks are IOS only in this generator
 			strip := func(ls []absLine) (out []absLine) {
@@ -259,7 +269,7 @@ func run(ctx *Ctx) *Result {
 			res.Eval(canon, false)
 			res.Count("drc-error")
 			res.Fail(map[string]any{"pred": "drc_failed_on_generated_acl", "backend": c.Backend},
-				fmt.Sprintf("drc exit %d panic %q stderr %q", status, pan, errOut), c)
+				fmt.Sprintf("drc exit %d panic %q stderr %q", status, pan, errOut), c0)
 			return
 		}
 		// encode with a-lines first so that key numbers are stable
@@ -290,20 +300,20 @@ func run(ctx *Ctx) *Result {
 		res.Count(fmt.Sprintf("%s:ops:%02d", c.Backend, min(len(ops), 12)))
 		res.Count(fmt.Sprintf("%s:moves:%d", c.Backend, min(nMoves, 4)))
 		if f["valid"] != "1" || f["norm"] != "1" {
-			res.Disagree("myers script valid+normalised", c, "ranges "+ranges(c.A, c.B, ios), "valid="+f["valid"]+" norm="+f["norm"])
+			res.Disagree("myers script valid+normalised", c0, "ranges "+ranges(c.A, c.B, ios), "valid="+f["valid"]+" norm="+f["norm"])
 			return
 		}
 		if !parsed {
 			res.Count(c.Backend + ":script-not-line-ops")
 			// expected exactly when the script keeps no line (new ACL is transferred as a whole)
 			if common {
-				res.Disagree("script shape", c, out, "expected line operations")
+				res.Disagree("script shape", c0, out, "expected line operations")
 			}
 			return
 		}
 		res.TracesVsImpl++
 		if f["agree"] != "1" {
-			res.Disagree(c.Backend+" ACL plan (model vs drc)", c, il, f["model"])
+			res.Disagree(c.Backend+" ACL plan (model vs drc)", c0, il, f["model"])
 		}
 		if len(res.Samples) < 4 && nMoves > 0 {
 			res.Sample(map[string]any{"backend": c.Backend, "device": devText, "target": spocText, "script": out, "ops": il, "verdict": f})
@@ -312,7 +322,7 @@ func run(ctx *Ctx) *Result {
 		if f["impl.exec"] != "ok" {
 			if prop == "C08" || prop == "C01" || prop == "C02" || prop == "C10" {
 				res.Fail(map[string]any{"pred": "acl_command_rejected_by_strict_device", "backend": c.Backend},
-					"strict device rejects the script ("+f["impl.exec"]+"): "+il, c)
+					"strict device rejects the script ("+f["impl.exec"]+"): "+il, c0)
 			}
 			return
 		}
@@ -320,7 +330,7 @@ func run(ctx *Ctx) *Result {
 		remarkSuppr := f["remarkSuppr"] == "1" && f["agree"] == "1"
 		if !wantFinal && (prop == "C01" || prop == "C02" || prop == "C10") {
 			res.Fail(map[string]any{"pred": "acl_not_converged", "backend": c.Backend, "final": f["impl.final"], "suppressed_move_at_remark": remarkSuppr},
-				"executing the script does not yield the target ACL: "+il, c)
+				"executing the script does not yield the target ACL: "+il, c0)
 		}
 		if prop == "C14" {
 			// how often the decidable hypotheses of asa_/ios_steps_safe_partial hold on real scripts
@@ -331,7 +341,7 @@ func run(ctx *Ctx) *Result {
 			}
 			if f["safe.hyp"] == "1" && f["agree"] == "1" && (f["impl.risk"] != "none" || f["impl.exec"] != "ok") {
 				res.Disagree(c.Backend+" step safety: hypotheses of *_steps_safe_partial hold, the script is the model's, yet a step is unsafe (contradicts the theorem: model of the device or of the packets is wrong)",
-					c, "risk="+f["impl.risk"]+" exec="+f["impl.exec"], "risk=none exec=ok")
+					c0, "risk="+f["impl.risk"]+" exec="+f["impl.exec"], "risk=none exec=ok")
 			}
 		}
 		if prop == "C14" && f["impl.risk"] != "none" {
@@ -344,7 +354,7 @@ func run(ctx *Ctx) *Result {
 			// model_predicts: the real script is exactly the script of the Lean model of the unchanged planner, so the
 			// unsafe step is the one that model makes on this input (known findings are matched only then)
 			res.Fail(map[string]any{"pred": parts[2], "backend": c.Backend, "model_predicts": f["agree"] == "1"},
-				fmt.Sprintf("after command %s of %q packet %v gets a verdict that neither the old nor the new ACL gives", parts[0], il, packets[pk]), c)
+				fmt.Sprintf("after command %s of %q packet %v gets a verdict that neither the old nor the new ACL gives", parts[0], il, packets[pk]), c0)
 		}
 		if prop == "C01" || prop == "C02" {
 			// second compare on the executed result
@@ -352,10 +362,10 @@ func run(ctx *Ctx) *Result {
 			out2, _, st2, pan2 := runDrc(model(c.Backend), config(c.Backend, fin), spocText)
 			if pan2 != "" || st2 != 0 || strings.TrimSpace(out2) != "" {
 				res.Fail(map[string]any{"pred": "second_compare_not_empty", "backend": c.Backend, "suppressed_move_at_remark": remarkSuppr},
-					"second compare of the executed result reports changes: "+out2, c)
+					"second compare of the executed result reports changes: "+out2, c0)
 			}
 			if len(ops) == 0 && !wantFinal {
-				res.Fail(map[string]any{"pred": "unchanged_reported_for_different_acl", "backend": c.Backend, "suppressed_move_at_remark": remarkSuppr}, "empty script for non-equivalent ACLs", c)
+				res.Fail(map[string]any{"pred": "unchanged_reported_for_different_acl", "backend": c.Backend, "suppressed_move_at_remark": remarkSuppr}, "empty script for non-equivalent ACLs", c0)
 			}
 		}
 		if prop == "C10" && len(ops) > 0 {
@@ -366,7 +376,7 @@ func run(ctx *Ctx) *Result {
 				out2, _, st2, pan2 := runDrc(model(c.Backend), config(c.Backend, mid), spocText)
 				res.Count("resume-cuts")
 				if pan2 != "" || st2 != 0 {
-					res.Fail(map[string]any{"pred": "resume_drc_failed", "backend": c.Backend}, fmt.Sprintf("cut %d: drc failed: %s", k, pan2), c)
+					res.Fail(map[string]any{"pred": "resume_drc_failed", "backend": c.Backend}, fmt.Sprintf("cut %d: drc failed: %s", k, pan2), c0)
 					continue
 				}
 				t2 := newKeyTable()
@@ -386,7 +396,7 @@ func run(ctx *Ctx) *Result {
 				okFinal := f2["impl.final"] == "equal" || (ios && f2["impl.final"] == "blockequiv")
 				if f2["impl.exec"] != "ok" || !okFinal {
 					res.Fail(map[string]any{"pred": "resume_not_converged", "backend": c.Backend},
-						fmt.Sprintf("cut after %d commands: second script %q gives exec=%s final=%s", k+1, il2, f2["impl.exec"], f2["impl.final"]), c)
+						fmt.Sprintf("cut after %d commands: second script %q gives exec=%s final=%s", k+1, il2, f2["impl.exec"], f2["impl.final"]), c0)
 				}
 			}
 		}
@@ -410,6 +420,24 @@ func run(ctx *Ctx) *Result {
 	n := ctx.N(1500, 40000)
 	if prop == "C10" {
 		n = ctx.N(300, 6000)
+	}
+	// large ACLs: the same small pairs, padded to sizes where a size guard in the planner could bite
+	// (the product of both lengths passes 10^8 at 10001 lines)
+	if prop == "C14" || prop == "C01" || prop == "C02" {
+		sizes := []int{1200, 10001}
+		if ctx.Thorough() {
+			sizes = []int{1200, 5000, 10001, 10050, 14000}
+		}
+		for i, sz := range sizes {
+			for _, be := range backends {
+				r := ctx.Rng.Fork()
+				a, b := genPair(r, be == "ios", 6)
+				if i%2 == 1 {
+					a, b = genMoveDownIntoMixedRun(r)
+				}
+				runCase(aclCase{Backend: be, A: a, B: b, Fill: sz, FillA: r.Intn(len(a) + 1), FillB: r.Intn(len(b) + 1)})
+			}
+		}
 	}
 	for i := 0; i < n; i++ {
 		r := ctx.Rng.Fork()
